@@ -491,6 +491,7 @@ func main() {
 		// of the upstream's allow rules"
 		for i := 0; i < a.N; i++ {
 			g := genGate(r)
+			g.NoRules = false // this mode forces one rule kind below: the upstream does have rules
 			switch i % 3 {
 			case 0:
 				g.Doms, g.Groups = nil, nil
